@@ -58,6 +58,10 @@ type respWriter struct {
 
 func (w *respWriter) Header() http.Header { return w.h }
 func (w *respWriter) WriteHeader(code int) {
+	if code < 100 || code > 999 {
+		// as net/http does (checkWriteHeaderCode)
+		panic(fmt.Sprintf("invalid WriteHeader code %v", code))
+	}
 	w.rec.Statuses = append(w.rec.Statuses, code)
 	if w.rec.StatusEv == 0 {
 		w.rec.Status = code
